@@ -25,6 +25,16 @@ def _digests(pid, tier, seed, idxs, lanes):
 
 
 def determinism(a, rest, seed):
+    import shutil
+    from .main import make_scratch
+    base = make_scratch()
+    try:
+        return _determinism(a, rest, seed)
+    finally:
+        shutil.rmtree(base, ignore_errors=True)
+
+
+def _determinism(a, rest, seed):
     n = int(os.environ.get("VERIF_DET_N") or 24)
     if "--emit" in rest:
         # child mode: print digests as JSON for the parent to compare
@@ -137,6 +147,70 @@ def mutants(a, rest, seed):
     return 0 if rep["detected"] == rep["total"] else 1
 
 
+def seeded(a, rest, seed):
+    """Regression over the independently produced changes kept under seeded/ (must be detected) and the
+    behaviour-preserving refactorings kept under benign/ (the check must stay quiet).  Each patch is applied
+    to a scratch copy of the repository's HEAD (never to /repo)."""
+    only = [x for x in rest if not x.startswith("-")]
+    t0 = time.time()
+    scratch_root = tempfile.mkdtemp(prefix="dst_seeded_", dir="/tmp")
+    results = []
+    try:
+        for kind in ("seeded", "benign"):
+            base = os.path.join(VERIF, kind)
+            for name in sorted(os.listdir(base)):
+                d = os.path.join(base, name)
+                if not os.path.isfile(os.path.join(d, "patch.diff")):
+                    continue
+                if only and name not in only and kind not in only and name.split("-")[0] not in only:
+                    continue
+                pid = name.split("-")[0]
+                root = os.path.join(scratch_root, kind + "_" + name)
+                os.makedirs(root)
+                entry = {"id": name, "kind": kind, "property": pid}
+                try:
+                    arch = subprocess.run("git -C %s archive HEAD | tar -x -C %s" % (a.repo, root), shell=True, capture_output=True, text=True, timeout=120)
+                    subprocess.run(["git", "init", "-q", "."], cwd=root, capture_output=True, timeout=60)
+                    ap = subprocess.run(["git", "apply", "--whitespace=nowarn", os.path.join(d, "patch.diff")], cwd=root, capture_output=True, text=True, timeout=60)
+                    if ap.returncode != 0:
+                        raise RuntimeError("patch does not apply to HEAD: " + ap.stderr[-300:])
+                    t1 = time.time()
+                    env = dict(os.environ, VERIF_SEED=str(seed))
+                    p = subprocess.run([os.path.join(VERIF, "check"), pid, "--tier", "quick", "--repo", root, "--no-evidence"],
+                                       env=env, capture_output=True, text=True, timeout=1800)
+                    vio = [l for l in p.stdout.splitlines() if l.startswith("VIOLATION ")]
+                    detail = [l for l in p.stdout.splitlines() if l.startswith("violation ")]
+                    harness = [l for l in p.stdout.splitlines() if l.startswith("HARNESS-ERROR")]
+                    entry.update(exit=p.returncode, wall_s=round(time.time() - t1, 1), violation=(detail[0][:240] if detail else None),
+                                 harness_error=(harness[0][:240] if harness else None))
+                    if kind == "seeded":
+                        entry["ok"] = bool(p.returncode == 1 and vio)
+                    else:
+                        entry["ok"] = bool(p.returncode == 0 and not vio)
+                    for l in vio:
+                        rp = l.split("replay=")[-1].strip()
+                        if os.path.exists(rp):
+                            os.remove(rp)
+                except Exception as e:
+                    entry.update(ok=False, error=repr(e))
+                shutil.rmtree(root, ignore_errors=True)
+                results.append(entry)
+                print("%-7s %-7s %s  %s" % (kind, name, ("detected" if kind == "seeded" else "quiet   ") if entry.get("ok") else "WRONG   ",
+                                             (entry.get("violation") or entry.get("error") or entry.get("harness_error") or "")[:140]))
+                sys.stdout.flush()
+    finally:
+        shutil.rmtree(scratch_root, ignore_errors=True)
+    rep = {"verif_seed": seed, "results": results, "seeded_detected": sum(1 for r in results if r["kind"] == "seeded" and r.get("ok")),
+           "seeded_total": sum(1 for r in results if r["kind"] == "seeded"),
+           "benign_quiet": sum(1 for r in results if r["kind"] == "benign" and r.get("ok")),
+           "benign_total": sum(1 for r in results if r["kind"] == "benign"), "wall_s": round(time.time() - t0, 1), "repo": runner.repo_identity(a.repo)}
+    if not only:
+        with open(os.path.join(VERIF, "selftest", "seeded.json"), "w") as fh:
+            json.dump(rep, fh, indent=1, sort_keys=True)
+    print("seeded changes detected: %d / %d   benign refactorings quiet: %d / %d" % (rep["seeded_detected"], rep["seeded_total"], rep["benign_quiet"], rep["benign_total"]))
+    return 0 if all(r.get("ok") for r in results) else 1
+
+
 def seam_audit(a, rest, seed):
     """Backs the not-applicable list: every API named by C01-C13 is executed once with all seams
     armed to record access; reports clock/RNG/FS events and attribute writes per call."""
@@ -218,6 +292,8 @@ def main(what, a, rest, seed):
         return determinism(a, rest, seed)
     if what == "selftest-mutants":
         return mutants(a, rest, seed)
+    if what == "selftest-seeded":
+        return seeded(a, rest, seed)
     if what == "selftest-seam-audit":
         return seam_audit(a, rest, seed)
     print("unknown selftest %r" % what)
